@@ -26,6 +26,7 @@ Adv(t) == [op |-> "adv", t |-> t]
 ProvAllC(s) == [op |-> "provall", s |-> s]
 Flush(p) == [op |-> "flush", p |-> p]
 Rel(n) == [op |-> "rel", n |-> n]
+Renew(p, s) == [op |-> "renew", p |-> p, s |-> s]
 
 \* ---- buffer palettes ------------------------------------------------------------
 B_two == {T(4, "2+2", TRUE, NoDate, NoDate, "-"), T(3, "1+2", FALSE, <<"pts", 50>>, <<"dts", 40>>, "x")}
@@ -46,7 +47,7 @@ S_sync == {One("idem", <<>>), One("setflowdef", <<>>), One("setattr", <<Opt("p0"
 S_clock == {One("setrap", <<Opt("p0", "rap", 10)>>), One("noclock", <<>>), One("delay", <<Opt("p0", "delay", 5)>>)}
 S_nodemux == {One("nodemux", <<>>)}
 A_sync == {In("p0"), OutTo("p0", "null"), OutTo("p0", "s0"), Policy("s0", "reject"), Policy("s0", "accept"),
-           SetFd("p0", "B"), Rel("p0"), Rel("s0")}
+           SetFd("p0", "B"), Rel("p0"), Rel("s0"), Renew("p0", "s1")}
 A_cfg == {In("p0"), Opt("p0", "offset", 0), Opt("p0", "offset", 1), Opt("p0", "delay", 0), Opt("p0", "dict", "none"),
           Opt("p0", "dict", "t2"), OptM("p0", 1, 1), Opt("p0", "drop", 1), Opt("p0", "rap", 95)}
 S_cfg == {One("skip", <<>>), One("delay", <<>>), One("setattr", <<>>), One("match_attr", <<>>), One("puref", <<>>),
